@@ -228,7 +228,11 @@ def run(tier, seed, replay=None):
             enforced_invalid = not oracle.Oracle(stripped).valid(v, "X")
             range_invalid = (not valid) and isinstance(v, int) and not isinstance(v, bool) and \
                 KINDS[kind].get("type") == "integer"
-            if not valid and not (enforced_invalid or range_invalid):
+            # uniqueness is not represented in the generated type (a set is a Vec), but typify does check it when it
+            # validates a default, so a default with repeated members is judged
+            dup_invalid = (not valid) and isinstance(v, list) and KINDS[kind].get("uniqueItems") and \
+                len({json.dumps(x_, sort_keys=True) for x_ in v}) != len(v)
+            if not valid and not (enforced_invalid or range_invalid or dup_invalid):
                 continue   # invalid only by an unrepresented constraint: not judged
             only_range = (not valid) and not enforced_invalid
             for form in (forms if tier == "thorough" else r.sample(forms, 3)):
